@@ -150,10 +150,13 @@ fn ident(p: &PG) -> impl Fn(&Gate) -> Option<usize> + '_ {
 
 impl C16 {
     fn judge(&self, ctx: &mut Ctx, class: &str, p: &PG, r: &mut Rng) {
+        self.judge_on(ctx, class, p, to_strict(p), r)
+    }
+
+    fn judge_on(&self, ctx: &mut Ctx, class: &str, p: &PG, lf: SOh<u32, Gate>, r: &mut Rng) {
         let inputs: Vec<u64> = (0..p.s.len()).map(|_| if r.chance(1, 3) { r.below(4) as u64 } else { r.next() }).collect();
         let input = || json!({"f": show(p), "inputs": inputs});
         let re = ref_eval(p, &inputs, &|l, x| gate_apply(l, x));
-        let lf = to_strict(p);
         let run = run_eval(&lf, inputs.clone(), &|l, x| gate_apply(l, x));
         ctx.api("eval");
         ctx.count_n("events:callback_batches", run.batches.len() as u64);
@@ -323,6 +326,7 @@ impl Monitor for C16 {
             ("api:eval(renumbered)", 200),
             ("api:eval<String>", 200),
             ("class:more_than_16_operations_ready_at_once", 100),
+            ("class:circuit_built_by_library_operations", 300),
             ("class:more_than_512_operations_ready_at_once", 20),
             ("class:chain_of_several_hundred_operations", 20),
             ("class:long_chain_closed_into_a_cycle", 10),
@@ -336,6 +340,25 @@ impl Monitor for C16 {
             let (class, p) = &c[idx as usize];
             ctx.class(class);
             self.judge(ctx, class, p, r);
+            return;
+        }
+        if r.chance(1, 8) {
+            // circuits glued together by the library: f ; g and h side by side (gates renamed apart), assembled by a
+            // pipeline of compose / tensor / dagger / lax composition / identity functor; evaluated as it comes out
+            let mut f = circuit(r, 3, 4);
+            let ty = f.tgt_type();
+            let mut g = crate::gen::oh_with_source(r, &OhParams::tiny(), &ty);
+            // g: relabel as generic gates, single-writer by construction is not guaranteed -- judged like any diagram
+            let mut id = 1000;
+            let mut gg: PG = POh { w: g.w.clone(), e: g.e.iter().map(|e| { id += 1; PEdge { l: Gate { kind: GateKind::Generic, id, nout: e.t.len() as u8 }, s: e.s.clone(), t: e.t.clone() } }).collect(), s: g.s.clone(), t: g.t.clone() };
+            let mut h = circuit(r, 2, 3);
+            for e in h.e.iter_mut() { e.l.id += 2000; }
+            let _ = (&mut f, &mut g, &mut gg);
+            if let Some((x, p, how)) = library_built(r, &f, &gg, &h) {
+                ctx.class("circuit_built_by_library_operations");
+                ctx.count(&format!("pipeline:{}", how));
+                self.judge_on(ctx, "library_built", &p, x, r);
+            }
             return;
         }
         if r.chance(1, 3000) {
